@@ -133,7 +133,7 @@ class Vector:
                 continue
             try:
                 element.set_value_from_message(child)
-            except (ValueError, TypeError, AssertionError):
+            except (ValueError, TypeError, AssertionError, ArithmeticError):
                 logger.warning(
                     "Vector %s: invalid value for element %s", self.name, child.name
                 )
